@@ -407,6 +407,50 @@ func TestVPOracleDecodeHighLevel(t *testing.T) {
 	f.report(t)
 }
 
+// The bounded-step decoder written for the symbolic executor is equivalent
+// to the plain one (random streams from every start mode, library streams).
+func TestVPOracleDecodeSym(t *testing.T) {
+	rnd := rand.New(rand.NewSource(4))
+	check := func(bits []bool, mode int) {
+		want, wantMode, wantOK := vpAzDecodeFrom(bits, mode)
+		got, n, gotMode, gotOK := vpAzDecodeSym(bits, mode, len(bits)/2+2)
+		if gotOK != wantOK || (wantOK && (!bytes.Equal(got[:n], want) || gotMode != wantMode)) {
+			t.Fatalf("mode %d bits %v:\n plain %q mode %d ok %v\n sym   %q mode %d ok %v", mode, bits, want, wantMode, wantOK, got[:n], gotMode, gotOK)
+		}
+		if wantOK && len(want) > 0 {
+			// too small a buffer is reported
+			if _, _, _, ok := vpAzDecodeSym(bits, mode, len(want)-1); ok {
+				t.Fatalf("mode %d bits %v: overflow of the output buffer not reported", mode, bits)
+			}
+			if g, n, _, ok := vpAzDecodeSym(bits, mode, len(want)); !ok || !bytes.Equal(g[:n], want) {
+				t.Fatalf("mode %d bits %v: exact buffer fails", mode, bits)
+			}
+		}
+	}
+	for iter := 0; iter < 200000; iter++ {
+		n := rnd.Intn(70)
+		if iter%50 == 0 {
+			n = rnd.Intn(400)
+		}
+		bits := make([]bool, n)
+		bias := rnd.Intn(4)
+		for i := range bits {
+			switch bias {
+			case 0:
+				bits[i] = rnd.Intn(4) == 0
+			case 1:
+				bits[i] = rnd.Intn(4) != 0
+			default:
+				bits[i] = rnd.Intn(2) == 0
+			}
+		}
+		check(bits, rnd.Intn(5))
+	}
+	for _, c := range vpAzPayloads() {
+		check(vpAzBitsOfList(highlevelEncode(c.data)), vpAzUpper)
+	}
+}
+
 // Hand-made streams for decoder features the library's encoder may not emit.
 func TestVPOracleDecodeHandmade(t *testing.T) {
 	enc := func(parts ...[2]int) []bool { // {value, width}
